@@ -94,7 +94,9 @@ def check_point(kind, lon, lat, depths, pix_depths, planetary, part):
     # pixel clause
     if abs(lat) <= np.pi / 2 - np.radians(1.0):
         for d in pix_depths:
-            for sh in (0.0, 2 * np.pi):
+            for sh in (0.0, 2 * np.pi, -4 * np.pi, 6 * np.pi):
+                if sh in (-4 * np.pi, 6 * np.pi) and d != 3:
+                    continue
                 cfg = dict(base, depth=d, lon_shift=sh, pixel=True)
                 part.case(nontrivial=True)
                 part.count("pixel_lookups")
